@@ -238,7 +238,9 @@ def run_random(rng, drv, profile, tid):
         exp = drv.to_ticks(drv.m["tap"].CHANNEL_EXPIRATION_TIME)
         per = drv.to_ticks(drv.period_secs)
         target = drv.now_ticks() + exp + 2 * per
-        while drv.now_ticks() < target:
+        guard = 0
+        while drv.now_ticks() < target and guard < 200:
+            guard += 1
             now = drv.now_ticks()
             if now >= drv.next_sweep:
                 do(ev0("Sweep"))
